@@ -192,7 +192,7 @@ func genWheelHistory(c *hx.Ctx, kind string) *whist {
 	live := nebula.VerifNewWheel(time.Duration(mn), time.Duration(mx), false)
 	drain := func() {
 		defer func() { _ = recover() }()
-		for j := 0; j < 100000; j++ {
+		for j := uint64(0); j <= id+1; j++ { // a correct wheel says false after at most `id` items
 			h.ops = append(h.ops, wop{k: 2})
 			if _, ok := live.Purge(); !ok {
 				return
@@ -424,6 +424,22 @@ func runWheel(c *hx.Ctx) {
 		cw.Add(wheelLit(h, &o), kind, o.panicked == "" && returned >= 2, wheelDesc(h, &o))
 		if o.panicked != "" {
 			failures = append(failures, map[string]any{"i": idx, "code": 2})
+		}
+	}
+
+	// 0. corpus: the histories of props/C33.v (examples and the backward-clock witness)
+	{
+		A := func(id uint64, t int64) wop { return wop{k: 0, id: id, t: t} }
+		V := func(t int64) wop { return wop{k: 1, t: t} }
+		P := wop{k: 2}
+		corpus := [][]wop{
+			{V(100), A(7, 10), V(75), V(100), P, P}, // C33_backward_clock_refuted: 7 comes out at 100 < 110
+			{A(1, 5), V(93), V(100), P, A(2, 1000), A(7, 25), V(125), P, V(130), P},
+			{A(1, 5), V(93), V(100), P, A(2, 1000), A(7, 25), V(139), P, P, V(140), P, P},
+			{V(0), A(1, 35), A(2, 10), A(3, 20), V(10007), P, P, P, P},
+		}
+		for _, ops := range corpus {
+			emit(&whist{mn: 10, mx: 35, ops: ops}, "corpus")
 		}
 	}
 
